@@ -328,6 +328,38 @@ Proof. intro H. rewrite <- (app_nil_r b). apply ses_app; [assumption|apply ses_n
 Lemma incl_sessions B P : incl P B -> Forall (session B) P.
 Proof. intro Hi. apply Forall_forall. intros th Hin. apply session_single. now apply Hi. Qed.
 
+(* ---------- isolation discipline checker ---------- *)
+
+Lemma classified_sound cls x : classified cls x = true -> exists c, In (x, c) cls.
+Proof.
+  induction cls as [|[y c] r IH]; simpl; [discriminate|].
+  rewrite orb_true_iff. intros [H|H].
+  - apply Nat.eqb_eq in H. subst. exists c. now left.
+  - destruct (IH H) as [c' Hc]. exists c'. now right.
+Qed.
+
+Lemma writes_of_In th i a x : nth_error th i = Some a -> acc_loc a = Some x -> acc_write a = true ->
+  In x (writes_of th).
+Proof.
+  intros Hn Hl Hw. unfold writes_of. apply in_flat_map. exists a. split; [eapply nth_error_In; eauto|].
+  rewrite Hl, Hw. now left.
+Qed.
+
+Theorem isolatedb_sound B opaque cls : isolatedb B opaque cls = true -> isolated B opaque cls.
+Proof.
+  unfold isolatedb. rewrite andb_true_iff, !forallb_forall. intros [HB HO]. split.
+  - intros th i a x Hin Hn Hl Hw. apply classified_sound.
+    specialize (HB th Hin). rewrite forallb_forall in HB. apply HB. eapply writes_of_In; eauto.
+  - intros x Hin. apply classified_sound. now apply HO.
+Qed.
+
+(* a pool without any request-phase shared write is trivially isolated *)
+Lemma isolated_no_writes B : (forall th, In th B -> writes_of th = []) -> isolated B [] [].
+Proof.
+  intro H. split; [|intros x []]. intros th i a x Hin Hn Hl Hw.
+  pose proof (writes_of_In th i a x Hn Hl Hw) as Hi. rewrite (H th Hin) in Hi. destruct Hi.
+Qed.
+
 (* ---------- a race is reachable when the discipline is absent (non-vacuity) ---------- *)
 
 Lemma two_writers_race x :
